@@ -4,7 +4,7 @@
    message, a CONFLICTING second message, one with a forged peer id, one with a bad signature, (control) a malformed one.
    Every interleaving of trigger, request/response delivery, loss, timeout, deadline, decision. *)
 EXTENDS Priority
-CONSTANTS MaxTime, MaxInject, Malformed
+CONSTANTS MaxTime, MaxInject, Malformed, Lossy, WithDecide
 Scripted == Peers \ Real
 LP == [i \in Real |-> <<"p1">>]
 OwnList(i) == IF i % 2 = 1 THEN <<"v2", "v1">> ELSE <<"v1", "v2">>
@@ -15,15 +15,17 @@ Repertoire(b) == {<<M(b, 1, <<"v1">>), TRUE>>, <<M(b, 1, <<"v2", "v1">>), TRUE>>
                   <<M(CHOOSE r \in Real : TRUE, 1, <<"v3">>), TRUE>>,     \* forged peer id
                   <<M(b, 1, <<"v3">>), FALSE>>}                           \* bad signature
                  \cup (IF Malformed THEN {<<M(b, 1, <<"v1", "v1">>), TRUE>>, <<M(b, 2, <<"v1">>), TRUE>>} ELSE {})
+\* StartAll is the tail of the loop iteration that added the last message: nothing of that node interleaves
 MCNext ==
+  IF \E x \in IS : AllDue(x) THEN \E x \in IS : StartAll(x) ELSE
   \/ \E i \in Real : Trigger(i, 1, OwnTopics(i))
   \/ \E i, j \in Real : DeliverReq(i, j, 1) \/ DeliverResp(i, j, 1)
-  \/ \E i \in Real, j \in Peers : SendFail(i, j, 1)
-  \/ \E x \in IS : Serve(x) \/ StartAll(x) \/ TimerFire(x) \/ Expire(x)
+  \/ (Lossy /\ \E i \in Real, j \in Peers : SendFail(i, j, 1))
+  \/ \E x \in IS : Serve(x) \/ TimerFire(x) \/ Expire(x)
   \/ \E b \in Scripted, j \in Real, k \in 1..MaxInject : \E mv \in Repertoire(b) : RecvReq(<<0, k, 0>>, b, j, mv[1], mv[2])
   \/ \E b \in Scripted, i \in Real : \E mv \in Repertoire(b) : RecvResp(i, b, 1, mv[1], mv[2])
   \/ (now < MaxTime /\ Advance(1))
-  \/ \E i, by \in Real : Decide(i, 1, by)
+  \/ (WithDecide /\ \E i, by \in Real : Decide(i, 1, by))
 MCSpec == Init /\ [][MCNext]_vars
 \* when nothing is lost and nobody misbehaves, everybody proposes the same topics ("consensus is reached if quorum
 \* peers propose the same value"): with all messages in, the proposals agree
